@@ -175,6 +175,27 @@ def explore(res, tier, seed, model_ok=True):
         else:
             scs.append(text_scenario(rng, p, nfrag, ncuts, neg, ctrl_between=cb))
             meta.append((p, 'verdict', neg, cb))
+    # targeted: a read that ends inside a multi-byte sequence, next read starts with the offending byte
+    for lead in (b'\xc2', b'\xdf', b'\xe0', b'\xe0\xa0', b'\xe1\x80', b'\xed', b'\xed\x9f', b'\xef\xbf', b'\xf0', b'\xf0\x90', b'\xf0\x90\x80', b'\xf1\x80\x80', b'\xf4', b'\xf4\x8f\xbf'):
+        for offending in (b'a', b' ', b'\xc2', b'\xff'):
+            for pre in (b'', b'ok '):
+                for nfrag in (1, 2):
+                    p_ = pre + lead + offending + b'zz'
+                    sc = Scenario([], prate=0)
+                    stop = len(pre) + len(lead) + 1
+                    if nfrag == 1:
+                        frames = server_frame(1, p_)
+                        hdr = len(frames) - len(p_)
+                        stream = frames[:hdr + stop]
+                        cutpos = hdr + stop - 1
+                    else:
+                        f1 = server_frame(1, pre + lead, fin=0)
+                        f2 = server_frame(0, offending + b'zz', fin=1)
+                        stream = f1 + f2[:3]
+                        cutpos = len(f1)
+                    hs = sc.good_reply()
+                    sc.env = reads([hs + stream[:cutpos], stream[cutpos:]])
+                    scs.append(sc); meta.append((p_, 'failfast', False, False))
     # witnesses of the two known fail-fast defects of the pinned commit run first (corpus)
     pairs = coreutil.run_pairs(scs, model_ok)
     for (js, line, real, model), (p, mode, neg, cb) in zip(pairs, meta):
